@@ -17,3 +17,6 @@ import SJ.Props.StreamTyped
 #print axioms SJ.Props.C13.c13_writer_ok_iff
 #print axioms SJ.Props.C13.c13_writer_vec
 #print axioms SJ.Props.C13.c13_writer_budget
+#print axioms SJ.Props.C13.c13_trace_agrees
+#print axioms SJ.Props.C13.c13_writer_all
+#print axioms SJ.Props.C13.c13_writer_all_vec
